@@ -168,6 +168,13 @@ func runC05(c *core.Ctx) {
 			if si%11 == 10 { // long buffers: paths that depend on the buffer length
 				ks, kd = r.Range(100, 700), r.Range(100, 700)
 			}
+			huge := si == 5 && ci%4 == 0 // more than 65536 samples, size not divisible by small numbers
+			if huge {
+				ch = 1 + ci%3
+				ks = 70001/ch + 3 + ci%7
+				kd = ks
+				c.Obs("conversions_of_more_than_65536_samples", 1)
+			}
 			ss := r.Range(0, ks)
 			se := r.Range(ss, ks)
 			ds := r.Range(0, kd)
@@ -190,6 +197,9 @@ func runC05(c *core.Ctx) {
 			}
 			if r.Chance(1, 3) {
 				xd = r.Range(0, ch-1)
+			}
+			if huge {
+				ss, se, ds, de, xs, xd = 0, ks, 0, kd, 0, 0
 			}
 			if !c.Want(caseID) {
 				continue
